@@ -112,6 +112,8 @@ R.contract(
             "g_h0": "stream.receiver.highest_offset",
             "g_fs0": "stream.receiver._final_size",
             "g_lim": "stream.max_stream_data_local",
+            # every byte up to the final size was already delivered, i.e. the end of the stream was already signalled
+            "g_done0": "stream.receiver._final_size is not None and stream.receiver._buffer_start == stream.receiver._final_size",
         }
     },
     raises={"BufferReadError": None, "StreamFinishedError": None, "QuicConnectionError": None},
@@ -134,8 +136,14 @@ R.contract(
         "not (g_fs0 is not None and (offset + length > g_fs0 or (frame.fin and offset + length != g_fs0)))",
         "frame.fin == (frame_type % 2 == 1)",
         "stream_id in self._streams and stream == self._streams[stream_id]",
+        # C01 'end-of-stream is signalled at most once' (taken from the property, not from the code): a frame that arrives
+        # after the stream's end was signalled - a retransmission or a duplicated datagram - produces no event; and one
+        # frame produces at most one event, appended behind the events already queued
+        "implies(g_done0, len(self._events) == old(len(self._events)))",
+        "old(len(self._events)) <= len(self._events) <= old(len(self._events)) + 1",
+        "forall(lambda k: implies(0 <= k < old(len(self._events)), at(self._events, k) == old(at(self._events, k))))",
     ],
-    prop=["C07"],
+    prop=["C07", "C01"],
 )
 
 
